@@ -36,7 +36,7 @@ PARTIAL = {"WM.C11.all_ids": "the overriding all_ids() of ListMatcher, Intersect
                              "ListMatcher without weights (weights=None) and a W3 posting list with no block are outside WF"}
 RULE = ("reads stream: programs of 14 next/skip_to/reset calls, (id, weight, number of matching terms) after every call against "
         "the Lean reads model, value()/spans()/matching terms compared between visits of an entry; "
-        "matcher trees (depth <= 3, MultiMatcher nodes included) over ListMatchers and over real W3LeafMatchers written with "
+        "matcher trees (depth <= 3, MultiMatcher nodes included, DisjunctionMaxMatcher with tiebreak 0 and > 0) over ListMatchers and over real W3LeafMatchers written with "
         "W3Codec(blocklimit 1..4), ArrayUnion/PreloadedUnion roots; adaptive programs of <= 60 operations; non-trivial = the tree has a "
         "composite node and the program contains a skip_to/skip_to_quality/replace that moved the matcher, "
         "or (error stream) an operation on an exhausted matcher; distinct = distinct (tree, program)")
